@@ -1,7 +1,8 @@
 /-
 C11 — executable model of `mxlpy/meta/codegen_mxlpy.py`: `_to_symbolic_repr` (102-147) and
 `generate_mxlpy_code_from_symbolic_repr` (after `fix: keep the names generated for initial-assignment and
-stoichiometry functions apart from the component functions`), and of what executing the generated source does
+stoichiometry functions apart from the component functions` and `fix: a function name generated for an initial
+assignment or a computed stoichiometry is taken from then on`), and of what executing the generated source does
 (`exec(src); create_model()`).
 
 Python functions are entries of a function table (`fid` = object identity): an entry has a
@@ -158,65 +159,70 @@ abbrev Fns := List (String × Def)
 def Fns.put (fs : Fns) (key : String) (f : SymFn) : Fns :=
   omInsert fs key { params := f.args, body := f.expr, src := f.src }
 
-/-- `_free_name(name, taken)`: `while name in taken: name = name + "_"`.  Every iteration meets a
-    different element of `taken`, so `taken.length + 1` iterations always suffice. -/
+/-- the loop of `_free_name(name, taken)`: `while name in taken: name = name + "_"`.  Every iteration meets a
+    longer name, hence a different element of `taken`, so `taken.length + 1` iterations always suffice
+    (`freeName_not_mem`, Lemmas/C11Keys.lean: the fuel is never used up). -/
 def freeNameLoop (taken : List String) : Nat → String → String
   | 0, name => name
   | fuel + 1, name => if taken.contains name then freeNameLoop taken fuel (name ++ "_") else name
 
+/-- the name `_free_name(name, taken)` returns; the caller's set becomes `freeName taken name :: taken`
+    (`taken.add(name)`, after `fix: a function name generated for an initial assignment or a computed
+    stoichiometry is taken from then on`) -/
 def freeName (taken : List String) (name : String) : String :=
   freeNameLoop taken (taken.length + 1) name
 
+/-- the generator's mutable state: the set `taken` and the `functions` dict -/
+abbrev GenSt := List String × Fns
+
 /-- `_codegen_variable` / `_codegen_parameter` -/
-def genInit (taken : List String) (fs : Fns) : SymVal → Fns × BVal
-  | .num v => (fs, .num v)
+def genInit (st : GenSt) : SymVal → GenSt × BVal
+  | .num v => (st, .num v)
   | .fn f =>
-    let key := freeName taken ("init_" ++ f.fnName)
-    (fs.put key f, .ref { key, args := f.args, src := f.src })
+    let key := freeName st.1 ("init_" ++ f.fnName)
+    ((key :: st.1, st.2.put key f), .ref { key, args := f.args, src := f.src })
 
-def genInits (taken : List String) (mk : Name → BVal → Call) : List (Name × SymVal) → Fns → Fns × List Call
-  | [], fs => (fs, [])
-  | (k, v) :: rest, fs =>
-    let (fs1, b) := genInit taken fs v
-    let (fs2, cs) := genInits taken mk rest fs1
-    (fs2, mk k b :: cs)
+def genInits (mk : Name → BVal → Call) : List (Name × SymVal) → GenSt → GenSt × List Call
+  | [], st => (st, [])
+  | (k, v) :: rest, st =>
+    let (st1, b) := genInit st v
+    let (st2, cs) := genInits mk rest st1
+    (st2, mk k b :: cs)
 
-def genDerived : List (Name × SymFn) → Fns → Fns × List Call
-  | [], fs => (fs, [])
-  | (k, f) :: rest, fs =>
-    let (fs2, cs) := genDerived rest (fs.put f.fnName f)
-    (fs2, Call.addDerived k { key := f.fnName, args := f.args, src := f.src } :: cs)
+def genDerived : List (Name × SymFn) → GenSt → GenSt × List Call
+  | [], st => (st, [])
+  | (k, f) :: rest, st =>
+    let (st2, cs) := genDerived rest (st.1, st.2.put f.fnName f)
+    (st2, Call.addDerived k { key := f.fnName, args := f.args, src := f.src } :: cs)
 
-def genStoich (taken : List String) (rxn : Name) : List (Name × SymVal) → Fns → Fns × List (Name × BVal)
-  | [], fs => (fs, [])
-  | (v, .num q) :: rest, fs =>
-    let (fs2, st) := genStoich taken rxn rest fs
-    (fs2, (v, BVal.num q) :: st)
-  | (v, .fn f) :: rest, fs =>
-    let key := freeName taken (rxn ++ "_stoich_" ++ f.fnName)
-    let (fs2, st) := genStoich taken rxn rest (fs.put key f)
-    (fs2, (v, BVal.ref { key, args := f.args, src := f.src }) :: st)
+def genStoich (rxn : Name) : List (Name × SymVal) → GenSt → GenSt × List (Name × BVal)
+  | [], st => (st, [])
+  | (v, .num q) :: rest, st =>
+    let (st2, l) := genStoich rxn rest st
+    (st2, (v, BVal.num q) :: l)
+  | (v, .fn f) :: rest, st =>
+    let key := freeName st.1 (rxn ++ "_stoich_" ++ f.fnName)
+    let (st2, l) := genStoich rxn rest (key :: st.1, st.2.put key f)
+    (st2, (v, BVal.ref { key, args := f.args, src := f.src }) :: l)
 
-def genReactions (taken : List String) : List (Name × SymRxn) → Fns → Fns × List Call
-  | [], fs => (fs, [])
-  | (k, r) :: rest, fs =>
-    let fs1 := fs.put r.fn.fnName r.fn
-    let (fs2, st) := genStoich taken k r.stoich fs1
-    let (fs3, cs) := genReactions taken rest fs2
-    (fs3, Call.addReaction k { key := r.fn.fnName, args := r.fn.args, src := r.fn.src } st :: cs)
+def genReactions : List (Name × SymRxn) → GenSt → GenSt × List Call
+  | [], st => (st, [])
+  | (k, r) :: rest, st =>
+    let st1 : GenSt := (st.1, st.2.put r.fn.fnName r.fn)
+    let (st2, l) := genStoich k r.stoich st1
+    let (st3, cs) := genReactions rest st2
+    (st3, Call.addReaction k { key := r.fn.fnName, args := r.fn.args, src := r.fn.src } l :: cs)
 
-/-- names of the functions of derived quantities and reactions: the names generated for initial
-    assignments and stoichiometries are kept apart from them -/
+/-- names of the functions of derived quantities and reactions: the initial value of `taken` -/
 def takenOf (s : SymRepr) : List String :=
   s.derived.map (·.2.fnName) ++ s.reactions.map (·.2.fn.fnName)
 
 def genProgram (s : SymRepr) : Program :=
-  let taken := takenOf s
-  let (f1, vs) := genInits taken Call.addVariable s.variables []
-  let (f2, ps) := genInits taken Call.addParameter s.parameters f1
-  let (f3, ds) := genDerived s.derived f2
-  let (f4, rs) := genReactions taken s.reactions f3
-  { defs := f4, build := vs ++ ps ++ ds ++ rs }
+  let (s1, vs) := genInits Call.addVariable s.variables (takenOf s, [])
+  let (s2, ps) := genInits Call.addParameter s.parameters s1
+  let (s3, ds) := genDerived s.derived s2
+  let (s4, rs) := genReactions s.reactions s3
+  { defs := s4.2, build := vs ++ ps ++ ds ++ rs }
 
 /-! ### executing the generated source -/
 
@@ -298,42 +304,18 @@ def Program.refsOk (p : Program) : Bool :=
 /-- every reference resolves to the definition of its own function object (excludes exactly F-C11-1) -/
 def Program.srcOk (p : Program) : Bool := p.build.all fun call => call.refs.all (refOk p.defs)
 
-def refsSrcOk (c : NContent) : Bool :=
-  match toSymbolicRepr [] c with
-  | .ok s => (genProgram s).srcOk
-  | .error _ => false
-
-/-- excludes exactly F-C11-1 (a key — `__name__`, `init_<name>`, `<rxn>_stoich_<name>` — shared by two
-    different functions, where the overwritten one is still referenced) and F-C11-2 (a winning definition
-    with a repeated parameter) -/
-def refsResolve (c : NContent) : Bool :=
-  match toSymbolicRepr [] c with
-  | .ok s => (genProgram s).refsOk
-  | .error _ => false
-
 /-! ### the same hypothesis on the input alone -/
 
-/-- every function slot of the model with the key the generator files its definition under, in the
-    order the generator fills its `functions` dict -/
-def entries (c : NContent) : List (String × Use) :=
-  let taken := c.derived.map (fun kv => (c.pyfn kv.2.fid).name)
-    ++ c.rxns.map (fun kv => (c.pyfn kv.2.rate.fid).name)
-  (c.vars.filterMap fun kv => match kv.2 with
-      | .ia u => some (freeName taken ("init_" ++ (c.pyfn u.fid).name), u) | .plain _ => none)
-  ++ (c.pars.filterMap fun kv => match kv.2 with
-      | .ia u => some (freeName taken ("init_" ++ (c.pyfn u.fid).name), u) | .plain _ => none)
-  ++ c.derived.map (fun kv => ((c.pyfn kv.2.fid).name, kv.2))
-  ++ c.rxns.flatMap fun kv => ((c.pyfn kv.2.rate.fid).name, kv.2.rate) ::
-      kv.2.stoich.filterMap fun vc => match vc.2 with
-        | .dyn u => some (freeName taken (kv.1 ++ "_stoich_" ++ (c.pyfn u.fid).name), u) | .num _ => none
+/-- the functions of derived quantities and reactions with the key their definition is filed under
+    (`__name__`); the keys generated for initial assignments and computed coefficients never meet another
+    key (`_free_name`), so these are the only keys two uses can share -/
+def compEntries (c : NContent) : List (String × Use) :=
+  c.derived.map (fun kv => ((c.pyfn kv.2.fid).name, kv.2))
+  ++ c.rxns.map (fun kv => ((c.pyfn kv.2.rate.fid).name, kv.2.rate))
 
-/-- no key is shared by two different function objects (excludes F-C11-1) -/
+/-- no two different function objects of derived quantities / reactions share a `__name__` (excludes F-C11-1) -/
 def keysInjective (c : NContent) : Bool :=
-  (entries c).all fun e1 => (entries c).all fun e2 => e1.1 != e2.1 || e1.2.fid == e2.2.fid
-
-/-- no component passes the same model name twice to its function (excludes F-C11-2; slightly stronger than
-    needed: only the last use under each key matters) -/
-def argsNoDup (c : NContent) : Bool := (entries c).all fun e => !hasDup e.2.args
+  (compEntries c).all fun e1 => (compEntries c).all fun e2 => e1.1 != e2.1 || e1.2.fid == e2.2.fid
 
 /-- pad / truncate an argument list to the function's arity -/
 def fit : Nat → List Rat → List Rat
@@ -348,24 +330,87 @@ def Use.all (c : NContent) : List Use :=
   ++ c.rxns.flatMap fun kv => kv.2.rate :: kv.2.stoich.filterMap fun vc =>
        match vc.2 with | .dyn u => some u | .num _ => none
 
+/-- no component passes the same model name twice to its function (slightly stronger than needed for derived /
+    reaction functions, where only the last use under a name is emitted) -/
+def argsNoDup (c : NContent) : Bool := (Use.all c).all fun u => !hasDup u.args
+
 /-- representation invariant: the Lean function standing for a Python function of arity n looks at its
     first n arguments only and reads a missing one as 0 (the core model applies a function to exactly
     `args.length` values, so every Python function has such a representative; `FExpr.eval` is one) -/
 def Canonical (c : NContent) : Prop :=
   ∀ u ∈ Use.all c, ∀ vs, (c.pyfn u.fid).fn vs = (c.pyfn u.fid).fn (fit u.args.length vs)
 
-/-- `generate_mxlpy_code_from_symbolic_repr`: the program, unless a definition would repeat a parameter name —
-    `sympy_to_python_fn` raises ValueError for that (after `fix: refuse to generate a Python function whose
-    parameter list repeats a name`) -/
+/-- the functions of derived quantities and reactions, in the order the generator visits them -/
+def compFns (s : SymRepr) : List SymFn := s.derived.map (·.2) ++ s.reactions.map (·.2.fn)
+
+/-- the function of a name: its first use with distinct arguments (`_check_function_names`, first loop) -/
+def refFn (fns : List SymFn) (name : String) : Option SymFn :=
+  fns.find? fun g => g.fnName == name && !hasDup g.args
+
+/-- `_check_function_names`, second loop: every use of a name is that name's function applied to the use's arguments.
+    The code compares translated expressions; the model compares the function objects they were translated from
+    (ghost `src`; ASSUMPTION C06: equal functions have equal translations and different functions different ones) -/
+def namesConsistent (s : SymRepr) : Bool :=
+  (compFns s).all fun f => match refFn (compFns s) f.fnName with
+    | some g => g.src == f.src
+    | none => true
+
+/-- `generate_mxlpy_code_from_symbolic_repr`: ValueError when two different functions of derived quantities /
+    reactions have the same name (after `fix: refuse to generate MxlPy source for two different functions with the
+    same name`); else the program, unless a definition would repeat a parameter name — `sympy_to_python_fn` raises
+    ValueError for that (after `fix: refuse to generate a Python function whose parameter list repeats a name`) -/
 def genMxlpy (s : SymRepr) : Except Err Program :=
-  let p := genProgram s
-  if p.defs.all fun kd => !hasDup kd.2.params then pure p
-  else .error (.valueError "an argument is repeated")
+  if !namesConsistent s then .error (.valueError "two different functions have the same name")
+  else
+    let p := genProgram s
+    if p.defs.all fun kd => !hasDup kd.2.params then pure p
+    else .error (.valueError "an argument is repeated")
+
+/-- the names check passes and every reference resolves to the definition of its own function object -/
+def refsSrcOk (c : NContent) : Bool :=
+  match toSymbolicRepr [] c with
+  | .ok s => namesConsistent s && (genProgram s).srcOk
+  | .error _ => false
+
+/-- … and every emitted definition has distinct parameters: generation succeeds and the program rebuilds the model -/
+def refsResolve (c : NContent) : Bool :=
+  match toSymbolicRepr [] c with
+  | .ok s => namesConsistent s && (genProgram s).refsOk
+  | .error _ => false
 
 /-- model → generated source → model -/
 def roundTrip (bad : List String) (c : NContent) : Except Err Content := do
   let s ← toSymbolicRepr bad c
   let p ← genMxlpy s
   runProgram p
+
+/-! ### what is declared: by the builder calls of a program, by the components of a model -/
+
+/-- what a builder call declares: kind, name, the model arguments of its function (none for a plain value), and for a
+    reaction the compounds of its stoichiometry with the arguments of computed coefficients -/
+def BVal.argsOf : BVal → Option (List Name)
+  | .num _ => none
+  | .ref r => some r.args
+
+def Call.head : Call → String × Name × Option (List Name) × List (Name × Option (List Name))
+  | .addVariable k v => ("variable", k, v.argsOf, [])
+  | .addParameter k v => ("parameter", k, v.argsOf, [])
+  | .addDerived k r => ("derived", k, some r.args, [])
+  | .addReaction k r st => ("reaction", k, some r.args, st.map fun vc => (vc.1, vc.2.argsOf))
+
+def NVal.argsOf : NVal → Option (List Name)
+  | .plain _ => none
+  | .ia u => some u.args
+
+def NCoef.argsOf : NCoef → Option (List Name)
+  | .num _ => none
+  | .dyn u => some u.args
+
+/-- the same for the components of the model -/
+def heads (c : NContent) : List (String × Name × Option (List Name) × List (Name × Option (List Name))) :=
+  (c.vars.map fun kv => ("variable", kv.1, kv.2.argsOf, []))
+  ++ (c.pars.map fun kv => ("parameter", kv.1, kv.2.argsOf, []))
+  ++ (c.derived.map fun kv => ("derived", kv.1, some kv.2.args, []))
+  ++ (c.rxns.map fun kv => ("reaction", kv.1, some kv.2.rate.args, kv.2.stoich.map fun vc => (vc.1, vc.2.argsOf)))
 
 end Mxl.C11
